@@ -44,6 +44,7 @@ CASE_TYPES = {
     "chk_sim": "sim_case",
     "chk_dist": "res (list (N * Q)) * option (res (list (N * Q))) * list (N * Q)",
     "chk_multi": "res (list (list (N * Q))) * list (list (N * Q))",
+    "chk_multiq": "multiq_case",
 }
 
 G1 = ["x", "y", "z", "h", "s", "sdg", "sx", "sxdg"]
@@ -69,74 +70,79 @@ def _layout(spec, regcls, bitcls, prefix):
     return regs, items
 
 
-def build(case) -> QuantumCircuit:
+def _par(qc, name):
+    for p in qc.parameters:
+        if p.name == name:
+            return p
+    return Parameter(name)
+
+
+def _apply_ins(qc, ins):
+    k = ins[0]
+    if k == "g":
+        getattr(qc, ins[1])(*ins[2])
+    elif k == "comp":
+        sub = QuantumCircuit(len(ins[2]))
+        for name, qs in ins[1]:
+            getattr(sub, name)(*qs)
+        qc.append(sub.to_gate(label="comp"), ins[2])
+    elif k == "measure":
+        qc.measure(ins[1], ins[2])
+    elif k == "reset":
+        qc.reset(ins[1])
+    elif k == "barrier":
+        qc.barrier(*ins[1])
+    elif k == "u":
+        m = np.array([complex(a, b) for a, b in ins[1]])
+        d = int(round(np.sqrt(len(m))))
+        qc.append(UnitaryGate(m.reshape(d, d), check_input=False), ins[2])
+    elif k == "ry":
+        qc.ry(ins[1], ins[2])
+    elif k in ("rxp", "ryp", "rzp"):
+        getattr(qc, k[:2])(_par(qc, ins[1]), ins[2])
+    elif k == "cif":
+        getattr(qc, ins[1])(*ins[2]).c_if(qc.clbits[ins[3]], ins[4])
+    elif k == "cifreg":
+        getattr(qc, ins[1])(*ins[2]).c_if(qc.cregs[ins[3]], ins[4])
+    elif k == "cifmeasure":
+        qc.measure(ins[1], ins[2]).c_if(qc.clbits[ins[3]], ins[4])
+    elif k == "cifreset":
+        qc.reset(ins[1]).c_if(qc.clbits[ins[2]], ins[3])
+    elif k == "ifelse":
+        with qc.if_test((qc.clbits[ins[1]], ins[2])):
+            getattr(qc, ins[3])(*ins[4])
+    elif k == "ifelse2":
+        with qc.if_test((qc.clbits[ins[1]], ins[2])) as else_:
+            getattr(qc, ins[3])(*ins[4])
+        with else_:
+            getattr(qc, ins[5])(*ins[4])
+    elif k == "ifexpr":
+        from qiskit.circuit.classical import expr
+
+        with qc.if_test(expr.logic_not(qc.clbits[ins[1]])):
+            getattr(qc, ins[2])(*ins[3])
+    elif k == "while":
+        with qc.while_loop((qc.clbits[ins[1]], ins[2])):
+            qc.x(ins[3])
+            qc.measure(ins[3], ins[1])
+    elif k == "switch":
+        with qc.switch(qc.clbits[ins[1]]) as case_:
+            with case_(0):
+                getattr(qc, ins[2])(*ins[3])
+    elif k == "clgate":
+        qc.append(Instruction("foo", len(ins[1]), len(ins[2]), []), ins[1], ins[2])
+    else:
+        raise ValueError(k)
+
+
+def build(case, upto=None) -> QuantumCircuit:
+    """the circuit of case['prog'][:upto]"""
     _, qitems = _layout(case["qregs"], QuantumRegister, Qubit, "q")
-    cregs, citems = _layout(case["cregs"], ClassicalRegister, Clbit, "c")
+    _, citems = _layout(case["cregs"], ClassicalRegister, Clbit, "c")
     qc = QuantumCircuit(*qitems, *citems)
     assert qc.num_qubits == case["nq"] and qc.num_clbits == case["ncl"]
-    params = {}
-
-    def par(name):
-        if name not in params:
-            params[name] = Parameter(name)
-        return params[name]
-
-    for ins in case["prog"]:
-        k = ins[0]
-        if k == "g":
-            getattr(qc, ins[1])(*ins[2])
-        elif k == "comp":
-            sub = QuantumCircuit(len(ins[2]))
-            for name, qs in ins[1]:
-                getattr(sub, name)(*qs)
-            qc.append(sub.to_gate(label="comp"), ins[2])
-        elif k == "measure":
-            qc.measure(ins[1], ins[2])
-        elif k == "reset":
-            qc.reset(ins[1])
-        elif k == "barrier":
-            qc.barrier(*ins[1])
-        elif k == "u":
-            m = np.array([complex(a, b) for a, b in ins[1]])
-            d = int(round(np.sqrt(len(m))))
-            qc.append(UnitaryGate(m.reshape(d, d), check_input=False), ins[2])
-        elif k == "ry":
-            qc.ry(ins[1], ins[2])
-        elif k in ("rxp", "ryp", "rzp"):
-            getattr(qc, k[:2])(par(ins[1]), ins[2])
-        elif k == "cif":
-            getattr(qc, ins[1])(*ins[2]).c_if(qc.clbits[ins[3]], ins[4])
-        elif k == "cifreg":
-            getattr(qc, ins[1])(*ins[2]).c_if(cregs[ins[3]], ins[4])
-        elif k == "cifmeasure":
-            qc.measure(ins[1], ins[2]).c_if(qc.clbits[ins[3]], ins[4])
-        elif k == "cifreset":
-            qc.reset(ins[1]).c_if(qc.clbits[ins[2]], ins[3])
-        elif k == "ifelse":
-            with qc.if_test((qc.clbits[ins[1]], ins[2])):
-                getattr(qc, ins[3])(*ins[4])
-        elif k == "ifelse2":
-            with qc.if_test((qc.clbits[ins[1]], ins[2])) as else_:
-                getattr(qc, ins[3])(*ins[4])
-            with else_:
-                getattr(qc, ins[5])(*ins[4])
-        elif k == "ifexpr":
-            from qiskit.circuit.classical import expr
-
-            with qc.if_test(expr.logic_not(qc.clbits[ins[1]])):
-                getattr(qc, ins[2])(*ins[3])
-        elif k == "while":
-            with qc.while_loop((qc.clbits[ins[1]], ins[2])):
-                qc.x(ins[3])
-                qc.measure(ins[3], ins[1])
-        elif k == "switch":
-            with qc.switch(qc.clbits[ins[1]]) as case_:
-                with case_(0):
-                    getattr(qc, ins[2])(*ins[3])
-        elif k == "clgate":
-            qc.append(Instruction("foo", len(ins[1]), len(ins[2]), []), ins[1], ins[2])
-        else:
-            raise ValueError(k)
+    for ins in case["prog"][:upto]:
+        _apply_ins(qc, ins)
     return qc
 
 
@@ -156,12 +162,19 @@ def run_impl(case, sampler=None):
 
 
 def run_multi(case, sampler=None):
+    """One ExactSampler.run over all circuits.  If a sub-case has "appended" = n > 0, the circuits are first built
+    WITHOUT their last n instructions and run once on the same sampler (answer discarded), then the same circuit
+    OBJECTS are extended in place and run again: the recorded answer must be that of the circuits as they are now."""
     s = sampler if sampler is not None else ExactSampler()
-    circs, vals = [], []
-    for sub in case["circuits"]:
-        qc = build(sub)
-        circs.append(qc)
-        vals.append([sub["params"][p.name] for p in qc.parameters])   # Qiskit binds a sequence in circuit.parameters order
+    subs = case["circuits"]
+    two_calls = any(sub.get("appended", 0) for sub in subs)
+    circs = [build(sub, upto=len(sub["prog"]) - sub.get("appended", 0)) for sub in subs]
+    if two_calls:
+        call_canon(lambda: s.run(circs, [[sub["params"][p.name] for p in qc.parameters] for sub, qc in zip(subs, circs)]).result())
+        for sub, qc in zip(subs, circs):
+            for ins in sub["prog"][len(sub["prog"]) - sub.get("appended", 0):]:
+                _apply_ins(qc, ins)
+    vals = [[sub["params"][p.name] for p in qc.parameters] for sub, qc in zip(subs, circs)]   # circuit.parameters order
     r = call_canon(lambda: s.run(circs, vals).result().quasi_dists)
     if r[0] == "ok":
         case["impl_multi"] = ["ok", [[[int(k), float(v)] for k, v in d.items()] for d in r[1]]]
@@ -321,6 +334,12 @@ def judge(case):
     exception) violates.  Opaque operations holding clbits are outside the property (never flagged)."""
     if case["kind"] == "multi":
         ans = case["impl_multi"]
+        if any(is_conditioned(i) for sub in case["circuits"] for i in sub["prog"]):
+            return dict(violates=ans[0] != "refused", detail=f"call containing a conditioned circuit: {ans[0]}")
+        if any(i[0] == "clgate" for sub in case["circuits"] for i in sub["prog"]):
+            return dict(violates=False, detail="operation with a classical bit: outside the property's domain")
+        if ans[0] == "refused" and any(sampler_prevalidation_refuses(sub) for sub in case["circuits"]):
+            return dict(violates=False, detail="BaseSamplerV1.run (Qiskit) refuses a call containing a circuit without clbits / Measure")
         if ans[0] != "ok":
             return dict(violates=True, detail=f"ExactSampler.run over {len(case['circuits'])} valid circuits not answered ({ans[0]}: {ans[1]})")
         if len(ans[1]) != len(case["circuits"]):
@@ -577,11 +596,12 @@ def generate(rng, tier, outdir):
     w = CaseWriter(outdir, IMPORTS, CASE_TYPES)
     w.SHARD = 160
     quick = tier == "quick"
-    n_main = 640 if quick else 6000
-    n_deep = 40 if quick else 240
+    n_main = 560 if quick else 6000
+    n_deep = 24 if quick else 240
     n_bad = 200 if quick else 1500
     n_tol = 160 if quick else 1500
     n_multi = 60 if quick else 600
+    n_multiq = 60 if quick else 800
     max_nonu = 8 if quick else 10
     modes = ["uniform", "uniform", "onebit", "basis", "entangle", "heavy", "heavy", "plus", "plus", "plus", "toffoli"]
     sampler = ExactSampler()        # ONE instance reused by every call of this run
@@ -780,6 +800,50 @@ def generate(rng, tier, outdir):
         w.count("multi.parametrised_circuits", sum(1 for s in subs if s["params"]))
         w.count("multi.answer", ans[0])
 
+    # ---------------- sampler stream, exact gate set: the model's sampler_run evaluated in Coq; second call after
+    #                  extending the same circuit objects in place on the same sampler instance ----------------
+    for it in range(n_multiq):
+        ncirc = int(rng.integers(1, 4))
+        subs = []
+        flavour = int(rng.integers(0, 10))     # 0-1: one circuit without Measure; 2-3: one circuit with a c_if; else all valid
+        for j in range(ncirc):
+            nq = int(rng.integers(1, 5))
+            ncl = int(rng.integers(1, 5))
+            mode = modes[int(rng.integers(0, len(modes)))]
+            if mode == "toffoli":
+                mode = "plus"
+            prog = rand_prog(rng, nq, ncl, int(rng.integers(0, 12)), mode, 5)
+            appended = 0
+            if flavour <= 1 and j == ncirc - 1:               # the last circuit has no Measure -> the whole call is refused
+                prog = [i for i in prog if i[0] != "measure"]
+            else:
+                tail = [["g", G1[int(rng.integers(0, len(G1)))], [int(rng.integers(0, nq))]],
+                        ["measure", int(rng.integers(0, nq)), int(rng.integers(0, ncl))]]
+                prog += tail
+                if rng.random() < 0.5 and any(i[0] == "measure" for i in prog[:-2]):
+                    appended = 2                              # these two arrive only after the first run
+            if 2 <= flavour <= 3 and j == 0:
+                prog.insert(int(rng.integers(0, len(prog) + 1)), ["cif", "x", [0], 0, 1])
+            subs.append(dict(kind="sim", nq=nq, ncl=ncl, qregs=split_regs(rng, nq), cregs=split_regs(rng, ncl),
+                             prog=prog, params={}, appended=appended))
+        case = dict(kind="multi", circuits=subs)
+        try:
+            for sub in subs:
+                build(sub)
+        except Exception as e:  # noqa: BLE001
+            w.count("skipped.unbuildable", type(e).__name__)
+            continue
+        run_impl(case, sampler)
+        v = judge(case)
+        clean(v)
+        ans = case["impl_multi"]
+        lit = ([(sub["nq"], sub["ncl"], coq_prog(sub["prog"])) for sub in subs],
+               Res("ok", [coq_pairs(d) for d in ans[1]]) if ans[0] == "ok" else Res(ans[0]), not v["violates"])
+        w.add("samplerq", "chk_multiq", lit, case, nontrivial=True)
+        w.count("multiq.circuits", ncirc)
+        w.count("multiq.answer", ans[0])
+        w.count("multiq.second_call_after_inplace_extension", any(sub["appended"] for sub in subs))
+
     return w.finish(
         rule="sim: random circuits on 1..5 qubits, 0..5 clbits (1-3 registers / bare bits each), 0..20 instructions over "
         "{x,y,z,h,s,sdg,sx,sxdg,cx,cz,swap,ccx, composite gates (to_gate) of these, measure,reset,barrier} in modes uniform / all "
@@ -792,6 +856,8 @@ def generate(rng, tier, outdir):
         "measure/reset, if_test with/without else, expr condition, while_loop, switch) or opaque instructions holding clbits inserted "
         "anywhere; expected Refused. tolerance: arbitrary 1-2 qubit unitaries and tiny rotations around the 1e-16 cut-off; function "
         "and sampler compared (in Coq, as maps, 1e-9) with the density-matrix oracle only. sampler: one run over 2-3 circuits with "
-        "parametrised rotations and parameter_values; quasi_dists[i] vs the oracle of the i-th bound circuit. "
+        "parametrised rotations and parameter_values; quasi_dists[i] vs the oracle of the i-th bound circuit. samplerq: one run over "
+        "1-3 exact-gate-set circuits (sometimes one without Measure / with a c_if: whole call refused), in half of the cases as a SECOND "
+        "run after the same circuit objects were extended in place on the same sampler; compared in Coq with Model.sampler_run on QSim. "
         "distinct = distinct Coq case literal; non-trivial = at least one measure/reset and an answer"
     )
